@@ -111,9 +111,12 @@ def build (I : Island) : LP :=
 def shedAll (I : Island) : List Rat :=
   I.buses.map (·.load) ++ zeros I.lines.length ++ zeros I.buses.length ++ [0]
 
-/-- what is reported per bus: amounts above the threshold α, when the optimal cost is positive -/
+/-- what is reported per bus: the amounts above the threshold α.  The code takes the solution when the optimal cost is
+positive or some bus sheds more than α (load can be shed at no cost where the interruption cost is zero), and reports
+nothing otherwise. -/
 def reported (I : Island) (x : List Rat) (fun_ : Rat) : List Rat :=
-  if fun_ > 0 then (x.take I.buses.length).map (fun s => if s > I.alpha then s else 0)
+  if fun_ > 0 || (x.take I.buses.length).any (fun s => s > I.alpha) then
+    (x.take I.buses.length).map (fun s => if s > I.alpha then s else 0)
   else zeros I.buses.length
 
 /-- column sums of A (= 1ᵀA) -/
